@@ -74,6 +74,13 @@ class _StopLoop(BaseException):
     pass
 
 
+class _Refused(Exception):
+    pass
+
+
+REFUSE_NEXT_SEND = [None]   # name of the recorder whose next send() raises
+
+
 # ----------------------------------------------------------------------------------------------
 # recorder layers
 
@@ -95,6 +102,10 @@ def make_recorder(spec, base=None):
             fn(d + [name + "'"])
 
     def send(self, d):
+        if REFUSE_NEXT_SEND[0] == name:
+            # this layer cannot take what it was handed (an unencodable value, a connection that is not ready)
+            REFUSE_NEXT_SEND[0] = None
+            raise _Refused(name)
         LOG.append(("send", _who(self, name), tuple(d)))
         _fwd(self, self.toLower, d)
 
@@ -274,6 +285,15 @@ def drain_loop(stack, StackCls):
         ystack_mod.time = real
 
 
+def _all_layer_objects(stack, n):
+    objs = []
+    for i in range(n):
+        layer = stack.getLayer(i)
+        objs.append(layer)
+        objs.extend(getattr(layer, "sublayers", None) or [])
+    return objs
+
+
 def layer_at(stack, objs, items, ref):
     pos, mem = ref
     layer = stack.getLayer(pos)
@@ -357,6 +377,32 @@ def run_case(case):
                 elif got is not None:
                     out.fail("interface", "interface:unexpected", {"layer": m["n"]})
                     return out
+    # --- a send that one of the layers refuses is reported to the sender - and the stack goes on handing data down afterwards
+    flat = [m for p in positions for m in p if m.get("mode", "pass") != "inherit"]
+    if case.get("refused_send") is not None and flat:
+        victim = flat[case["refused_send"] % len(flat)]["n"]
+        REFUSE_NEXT_SEND[0] = victim
+        try:
+            stack.send([])
+            reached = REFUSE_NEXT_SEND[0] is None
+        except _Refused:
+            reached = True
+        except Exception as e:
+            out.fail("data", "data:refused_send:raises:%s" % type(e).__name__, {"error": repr(e)[:200]})
+            return out
+        finally:
+            REFUSE_NEXT_SEND[0] = None
+        if reached:
+            out.label("send_refused_by_a_layer")
+            held = []
+            for obj in _all_layer_objects(stack, len(items)):
+                lk = getattr(obj, "lock", None)
+                if lk is not None and hasattr(lk, "locked") and lk.locked():
+                    held.append(str(obj))
+            if held:
+                # (a held send lock means the next send through that layer waits for ever: reported without waiting for it)
+                out.fail("data", "data:send_after_a_refused_send_would_block", {"refused_by": victim, "locks_still_held_by": held[:4]})
+                return out
     # --- data, both directions
     for direction in ("send", "recv"):
         del LOG[:]
@@ -741,6 +787,8 @@ def shape_strategy():
         case = {"sub": "shape", "items": items, "event": ev, "build": how}
         if draw(st.integers(0, 3)) == 0:
             case["earlier_stack"] = True
+        if draw(st.integers(0, 2)) == 0:
+            case["refused_send"] = draw(st.integers(0, 20))
         if how == "ctor":
             case["order"] = draw(st.sampled_from(["bottom_up", "top_down"]))
         else:
